@@ -74,6 +74,45 @@ def inUnicodeDomain (s : Str) : Bool :=
   | some cs => cs.all (fun x => x ≠ 0 && decide (Utf.IsScalar x))
   | none => false
 
+/-- Classification of a string that `serialize` has to encode as Shift-JIS (keys, the title in the
+UTF-16 format, legacy-format messages), independent of the model:
+* `skip`   — outside C06's quantifier or not decidable here: contains NUL, one of the three
+             lossy-but-encodable code points U+00A5 / U+203E / U+2212, or a code point that is
+             neither in the sub-codec alphabet nor a known-unencodable probe;
+* `inDom`  — every code point is in the executable sub-codec alphabet (Shift-JIS-lossless);
+* `unenc`  — otherwise: sub-codec code points plus at least one known-unencodable one (U+00E9,
+             U+2713, any astral code point: not in the Shift-JIS index of the Encoding Standard). -/
+inductive SjisClass | skip | inDom | unenc
+  deriving DecidableEq
+
+def lossyCp (cp : Nat) : Bool := cp == 0xA5 || cp == 0x203E || cp == 0x2212
+
+def sjisClass (s : Str) : SjisClass :=
+  match Utf.utf8Dec s with
+  | none => .skip
+  | some cs =>
+    if cs.any (fun x => x == 0 || lossyCp x) then .skip
+    else if cs.all (fun x => (Sjis.encCp x).isSome) then (if inSjisDomain s then .inDom else .skip)
+    else if cs.all (fun x => (Sjis.encCp x).isSome || x == 0xE9 || x == 0x2713 || x ≥ 0x10000) then .unenc
+    else .skip
+
+def hasLossy (s : Str) : Bool :=
+  match Utf.utf8Dec s with
+  | none => false
+  | some cs => cs.any lossyCp
+
+/-- Joint classification of an archive's content: `none` = skip, `some true` = entirely inside the
+domain, `some false` = holds at least one unencodable string (serialize may refuse it; if it
+accepts, the round-trip clause applies to what it accepted). -/
+def contentClass (uni : Bool) (title : Str) (entries : List (Str × Str)) : Option Bool :=
+  let keys := entries.map (·.1)
+  let subj := keys ++ (if uni then [title] else entries.map (·.2))
+  let cls := subj.map sjisClass
+  if keys.eraseDups.length != keys.length then none
+  else if cls.any (· == .skip) then none
+  else if uni && !(entries.all (fun p => inUnicodeDomain p.2)) then none
+  else some (cls.all (· == .inDom))
+
 def oracleRt (f : TextFormat) (e : Endian) (title : Str) (entries : List (Str × Str))
     (impl : List String) : String :=
   if impl.getD 1 "" == "panic" then "FAIL panic" else
@@ -83,11 +122,13 @@ def oracleRt (f : TextFormat) (e : Endian) (title : Str) (entries : List (Str ×
   -- implementation failed before printing it, what the specification says `set_message` stores.
   let stored := ((field impl "stored").bind parsePairs).getD
     (entries.map (fun p => (p.1, Spec.TextMap.unescape p.2)))
-  let dom := keys.eraseDups.length == keys.length && stored.map (·.1) == keys && keys.all inSjisDomain
-    && (!uni || inSjisDomain title)
-    && stored.all (fun p => if uni then inUnicodeDomain p.2 else inSjisDomain p.2)
-  if !dom then "ok skip (outside the property's domain)" else
-  if impl.getD 1 "" != "ok" then "FAIL serialize failed on an in-domain archive" else
+  if stored.map (·.1) != keys then "ok skip (outside the property's domain)" else
+  match contentClass uni title stored with
+  | none => "ok skip (outside the property's domain)"
+  | some inDom =>
+  -- `serialize` may refuse content it cannot encode; whatever it accepts must round-trip
+  if impl.getD 1 "" != "ok" then
+    (if inDom then "FAIL serialize failed on an in-domain archive" else "ok") else
   if impl.getD 4 "" != "parsed" then "FAIL re-parse failed on the archive's own image" else
   match (field impl "bytes").bind bytesOfHex, (field impl "title").bind bytesOfHex,
       (field impl "entries").bind parsePairs with
@@ -172,11 +213,11 @@ def oracleHs (f : TextFormat) (e : Endian) (impl : List String) : String :=
   match (field impl "ctitle").bind bytesOfHex, (field impl "centries").bind parsePairs with
   | some ctitle, some centries =>
     let keys := centries.map (·.1)
-    let dom := keys.eraseDups.length == keys.length && keys.all inSjisDomain
-      && (!uni || inSjisDomain ctitle)
-      && centries.all (fun p => if uni then inUnicodeDomain p.2 else inSjisDomain p.2)
-    if !dom then "ok skip (outside the property's domain)" else
-    if impl.getD 4 "" == "ser-err" then "FAIL serialize failed on an in-domain archive" else
+    match contentClass uni ctitle centries with
+    | none => "ok skip (outside the property's domain)"
+    | some inDom =>
+    if impl.getD 4 "" == "ser-err" then
+      (if inDom then "FAIL serialize failed on an in-domain archive" else "ok") else
     if impl.getD 5 "" != "parsed" then "FAIL re-parse failed on the archive's own image" else
     match (field impl "bytes").bind bytesOfHex, (field impl "title").bind bytesOfHex,
         (field impl "entries").bind parsePairs with
@@ -295,7 +336,12 @@ def family : Family where
     | [_, "rt", f, e, title, entries] =>
       match fmtOf f, endianOf e, bytesOfHex title, parsePairs entries with
       | some f, some e, some title, some entries =>
-        (st, modelRt f e title entries, oracleRt f e title entries impl)
+        -- U+00A5 / U+203E / U+2212 are encodable but lossy: outside the quantifier and outside the
+        -- executable sub-codec, so neither the model nor the oracle speaks about them
+        let subj := (if f == .unicode then [title] else entries.map (·.2)) ++ entries.map (·.1)
+        if subj.any hasLossy then
+          (st, String.intercalate " " (impl.drop 1), "ok skip (lossy Shift-JIS code point)")
+        else (st, modelRt f e title entries, oracleRt f e title entries impl)
       | _, _, _, _ => (st, "bad-case", "FAIL bad-case")
     | [_, "rtd", f, e, title, entries] =>
       match fmtOf f, endianOf e, bytesOfHex title, parsePairs entries with
@@ -309,7 +355,15 @@ def family : Family where
     | [_, "hs", f, e, title, entries, src, ops] =>
       match fmtOf f, endianOf e, bytesOfHex title, parsePairs entries, parseOps ops with
       | some f, some e, some title, some entries, some ops =>
-        (st, modelHs f e title entries (src == "P") ops, oracleHs f e impl)
+        let uni := f == .unicode
+        let opStrs := ops.flatMap (fun o => match o with
+          | .title t => if uni then [t] else []
+          | .del _ => []
+          | .set k m => if uni then [k] else [k, m])
+        let subj := (if uni then [title] else entries.map (·.2)) ++ entries.map (·.1) ++ opStrs
+        if subj.any hasLossy then
+          (st, String.intercalate " " (impl.drop 1), "ok skip (lossy Shift-JIS code point)")
+        else (st, modelHs f e title entries (src == "P") ops, oracleHs f e impl)
       | _, _, _, _, _ => (st, "bad-case", "FAIL bad-case")
     | [_, "fa", f, e, data, labels] =>
       match fmtOf f, endianOf e, bytesOfHex data, parseLabels labels with
